@@ -450,6 +450,33 @@ static int apply(int li)
 done:
 	xp_count(K_LETTERS, 1);
 	if (!vw_alive(0)) { viol("server-exited", "server loop ended after %s", L->name); return 0; }
+	/* C16: whatever upstream data query the session has sent recently must still be recognisable to the server, so that a relay's
+	 * repeat of it can be told from new data: it is either waiting to be answered, or in the query memory (15 data queries), or in
+	 * the answer cache.  A query that was consumed and then forgotten (seeded C16-j: a held data query overwritten by a ping that
+	 * arrives inside the 20 ms window) would be appended again when it comes back after a few newer packets. */
+	if (is16 && !M.rawed) {
+		struct tun_user *u = &s_w_users()[M.uid];
+		int seen_data = 0;
+		for (int k = 0; k < HIST && seen_data < 12; k++) {
+			const sent *h = &M.hist[k];
+			if (!h->used || !h->isdata) continue;
+			seen_data++;
+			char dotted[300]; int dl = 0, pos = 12, ok = 1;
+			while (pos < h->len && h->pkt[pos]) { int l = h->pkt[pos]; if (l > 63 || pos + 1 + l > h->len || dl + l + 1 >= (int)sizeof dotted) { ok = 0; break; } if (dl) dotted[dl++] = '.'; memcpy(dotted + dl, h->pkt + pos + 1, l); dl += l; pos += 1 + l; }
+			if (!ok || pos + 2 >= h->len || dl < 5) continue;
+			dotted[dl] = 0;
+			int qtype = (h->pkt[pos + 1] << 8) | h->pkt[pos + 2];
+			unsigned char cmc[4]; int dotin = 0;
+			for (int i = 0; i < 4; i++) { cmc[i] = (unsigned char)tolower((unsigned char)dotted[1 + i]); if (dotted[1 + i] == '.') dotin = 1; }
+			if (dotin) continue;
+			int found = 0;
+			if (u->q.id && !strcasecmp(u->q.name, dotted)) found = 1;
+			if (u->q_sendrealsoon.id && !strcasecmp(u->q_sendrealsoon.name, dotted)) found = 1;
+			for (int i = 0; i < QMEMDATA_LEN && !found; i++) if (u->qmemdata_type[i] == qtype && !memcmp(u->qmemdata_cmc + 4 * i, cmc, 4)) found = 1;
+			for (int i = 0; i < DNSCACHE_LEN && !found; i++) if (u->dnscache_q[i].id && u->dnscache_q[i].type == qtype && !strcasecmp(u->dnscache_q[i].name, dotted)) found = 1;
+			if (!found) { viol("data-query-forgotten", "after %s: the session's data query %.24s.. (%d queries back among its data queries) is neither waiting, nor in the query memory, nor in the answer cache: a repeat of it would be taken for new data", L->name, dotted, seen_data - 1); break; }
+		}
+	}
 	/* C14: at rest, at most two distinct unanswered tunnel queries of the session */
 	{
 		int distinct = 0, idx[NPEND];
